@@ -367,7 +367,8 @@ func readInnerChunks(tx *bolt.Tx, fsID string, off int64) (chunks []chunkEntryWi
 	if err != nil {
 		return nil, fmt.Errorf("metadata bucket of %q not found: %w", fsID, err)
 	}
-	if err := ob.ForEach(func(_, v []byte) error {
+	if err := ob.ForEach(func(k, v []byte) error {
+		innerOff, _ := binary.Varint(k)
 		nodeid := decodeID(v)
 		b, err := getNodeBucketByID(nodes, nodeid)
 		if err != nil {
@@ -380,7 +381,8 @@ func readInnerChunks(tx *bolt.Tx, fsID string, off int64) (chunks []chunkEntryWi
 				return fmt.Errorf("failed to get chunks: %w", err)
 			}
 			for _, e := range nodeChunks {
-				if e.offset == off {
+				// A node can have several chunks in this stream. Each of them has its own key.
+				if e.offset == off && e.innerOffset == innerOff {
 					chunks = append(chunks, chunkEntryWithID{e, nodeid})
 				}
 			}
